@@ -72,7 +72,11 @@ func verifAttrCheck(got interface{}, want verifAttr) {
 
 // verifAttrScript: `prefix` concrete writes of distinct names, then `nops` symbolic operations
 // (upsert of any kind / delete, on a present or absent name), close, reopen, compare with the model map.
-func verifAttrScript(ver uint8, prefix, nops int) {
+func verifAttrScript(ver uint8, prefix, nops int) { verifAttrScriptFirst(ver, prefix, nops, -1) }
+
+// first >= 0 fixes the name used by the first operation (the thorough three-operation scripts are split by it so
+// that the parts run in parallel and each finishes inside the time budget)
+func verifAttrScriptFirst(ver uint8, prefix, nops, first int) {
 	fw, err := CreateForWrite("c02.h5", CreateTruncate, WithSuperblockVersion(ver))
 	vrt.AssertNoErr(err, "create-ok")
 	ds, err := fw.CreateDataset("/d", Int32, []uint64{1})
@@ -90,7 +94,11 @@ func verifAttrScript(ver uint8, prefix, nops int) {
 	for k := 0; k < nops; k++ {
 		// name: one of the first two existing names or a new one
 		var name string
-		switch vrt.Choice(3) {
+		pick := first
+		if k > 0 || first < 0 {
+			pick = vrt.Choice(3)
+		}
+		switch pick {
 		case 0:
 			name = names[0]
 		case 1:
@@ -162,8 +170,12 @@ func VerifH_C02_api_threshold() { verifAttrScript(2, 7, 2) }
 func VerifH_C02_api_dense() { verifAttrScript(2, 9, 2) }
 
 func VerifH_C02_api_compact3_thorough() { verifAttrScript(2, 2, 3) }
-func VerifH_C02_api_threshold3_thorough() { verifAttrScript(2, 7, 3) }
-func VerifH_C02_api_dense3_thorough() { verifAttrScript(3, 9, 3) }
+func VerifH_C02_api_threshold3_first0_thorough() { verifAttrScriptFirst(2, 7, 3, 0) }
+func VerifH_C02_api_threshold3_first1_thorough() { verifAttrScriptFirst(2, 7, 3, 1) }
+func VerifH_C02_api_threshold3_new_thorough()    { verifAttrScriptFirst(2, 7, 3, 2) }
+func VerifH_C02_api_dense3_first0_thorough()     { verifAttrScriptFirst(3, 9, 3, 0) }
+func VerifH_C02_api_dense3_first1_thorough()     { verifAttrScriptFirst(3, 9, 3, 1) }
+func VerifH_C02_api_dense3_new_thorough()        { verifAttrScriptFirst(3, 9, 3, 2) }
 
 // dense storage shrunk to a single attribute, then size-changing overwrite and additions (the heap becomes empty
 // in the middle of a delete-then-insert overwrite)
@@ -274,14 +286,26 @@ func VerifH_C02_api_dense_first_big() {
 // dense storage with names that differ only in their last byte (lengths 11, 12 and 24: block boundaries of the
 // name hash): operations on one name never affect its sibling
 func VerifH_C02_api_dense_similar_names() {
+	pairs := [][2]string{{"temperatur1", "temperatur2"}, {"temperature1", "temperature2"}, {"temperature_sensor_no_01", "temperature_sensor_no_02"}}
+	verifSimilarNames(pairs[vrt.Choice(3)])
+}
+
+// two 16-byte names that differ in exactly one byte, at a position forked over the whole name
+func VerifH_C02_api_dense_names_one_byte_apart() {
+	a := []byte("sensor_reading_A")
+	b := []byte("sensor_reading_A")
+	p := vrt.Choice(len(a))
+	b[p] ^= 0x01 + 0x02*byte(vrt.Choice(2))
+	verifSimilarNames([2]string{string(a), string(b)})
+}
+
+func verifSimilarNames(pr [2]string) {
 	vrt.LoopBound(3000)
 	fw, err := CreateForWrite("c02n.h5", CreateTruncate)
 	vrt.AssertNoErr(err, "create-ok")
 	ds, err := fw.CreateDataset("/d", Int32, []uint64{1})
 	vrt.AssertNoErr(err, "create-dataset-ok")
 	vrt.AssertNoErr(ds.Write([]int32{7}), "write-ok")
-	pairs := [][2]string{{"temperatur1", "temperatur2"}, {"temperature1", "temperature2"}, {"temperature_sensor_no_01", "temperature_sensor_no_02"}}
-	pr := pairs[vrt.Choice(3)]
 	names := []string{"f0", "f1", "f2", "f3", "f4", "f5", "f6", pr[0], pr[1]}
 	model := map[string]int32{}
 	for i, n := range names {
